@@ -129,7 +129,17 @@ def rule_config_domain(ctx: Ctx, rel: str, solve_q: str, setting_cls: str, attr:
     ends_raise = False
     found = False
     for ch in extract_chains(repo, m, fn):
-        hits = [b for b in ch if b.test is not None and norm(b.test).split(" ")[0].endswith("." + attr)]
+        def _sides(t):
+            """(subject, constant) of `x.attr == c` / `c == x.attr` / `x.attr is c`"""
+            if isinstance(t, ast.Compare) and len(t.ops) == 1 and isinstance(t.ops[0], (ast.Eq, ast.Is)):
+                l, r = t.left, t.comparators[0]
+                if isinstance(l, ast.Constant) and not isinstance(r, ast.Constant):
+                    l, r = r, l
+                if isinstance(r, ast.Constant):
+                    return l, r
+            return None, None
+        hits = [b for b in ch if b.test is not None and ((b.parsed and (b.subject or "").endswith("." + attr))
+                                                         or (_sides(b.test)[0] is not None and norm(_sides(b.test)[0]).endswith("." + attr)))]
         if len(hits) < 2:
             continue
         found = True
@@ -137,10 +147,9 @@ def rule_config_domain(ctx: Ctx, rel: str, solve_q: str, setting_cls: str, attr:
             if b.test is None:
                 ends_raise = b.raises
                 continue
-            t = b.test
-            if isinstance(t, ast.Compare) and len(t.ops) == 1 and isinstance(t.comparators[0], ast.Constant):
-                if isinstance(t.ops[0], (ast.Eq, ast.Is)):
-                    accepted.add(t.comparators[0].value)
+            subj_, const_ = _sides(b.test)
+            if const_ is not None:
+                accepted.add(const_.value)
             elif b.parsed:
                 accepted |= b.literals
     if not found:
